@@ -162,3 +162,15 @@ claim("C09",
       "x {complete, abort after ClientHello, stall, garbage} x order: executed-for-client and immediate service of a valid TLS client and a plain client afterwards.",
       LIFE_TB + "Partial: X.509 path validation and the TLS state machine are an oracle (the handshake outcome is an input of the model).",
       "Coq theorems (gate on the leaf name, containment of failed handshakes) + complete enumeration against crypto/tls")
+claim("C14",
+      "Theorem (all traces: any number of threads, any interleaving): under mutex / RW-mutex semantics, if every access is made holding the locks its row of a static access table "
+      "promises and the table passes the executable check (every two rows that may conflict - same field, a write, threads that may run together, not both the goroutine's own object - "
+      "share a lock, held exclusively by writers), then any two conflicting accesses of different threads are separated by a release of that lock by the first and an acquisition by the "
+      "second (release->acquire = happens-before: no data race). The table is REGENERATED from the Go source on every run by a translator (go/packages + go/types: ~140 access rows over "
+      "~28 shared fields of packages redis and redis/auth, roles api/accept/conn, lock regions and call-graph propagation) and `check table = true` is re-proved by vm_compute. Runtime half: "
+      "concurrent workloads (8..32 clients, every command family, CONFIG SET/GET, TLS+plain churn with FIN/RST/QUIT, registry enumeration with Close, Restart every 250 ms) under the Go "
+      "race detector - the failing-schedule search and the validation of the translator.",
+      TB.replace("the model is hand-written and tied to /repo by differential execution on every run", "the access table is generated from /repo's source on every run by the lockset translator") +
+      "Partial: the translator (syntactic lock regions, over-approximated dynamic dispatch, configuration setters not a role, one API thread) is trusted and validated only by the race detector; "
+      "that sync.Mutex implements the modelled semantics and that the Go memory model orders release before acquire are assumptions.",
+      "Coq lockset theorem + access table regenerated from source (translator) re-checked by computation + race-detector stress")
